@@ -196,6 +196,8 @@ def generate(rng, tier):
         if lock:   # the held handle is on the original file only; after save_as the workspace points at an unlocked copy
             ops = [o for o in ops if o["op"] != "save_as"]
         cases.append({"kind": "seq", "lock": lock, "ops": ops})
+    for how in ("ctor", "setter"):
+        cases.append({"kind": "helper", "which": "repack_readonly", "src_state": how, "target": "pts"})
     for which, states in (("path2workspace", ["na"]), ("read_ui_json", ["na"]), ("monitored_copy", ["r", "closed_rp", "rp", "closed_r"])):
         for st in states:
             for tgt in (["pts", "container", "curve"] if which == "monitored_copy" else ["pts"]):
@@ -359,6 +361,35 @@ def drive_helper(case, work):
             out["handle_after"] = iotrace.handle_state(w) if w is not None else None
             out["ctor_mode"] = getattr(w, "_mode", None)
             out["sha_same"] = iofix.sha256(path) == sha0
+        elif which == "repack_readonly":
+            # `repack=True` on a read-only workspace: close() hands the file to the external h5repack tool and replaces it.
+            # h5repack is not installed here; a stand-in on PATH makes the call observable (it copies and appends one byte)
+            from geoh5py import Workspace
+
+            stub = os.path.join(tmp, "bin")
+            os.makedirs(stub)
+            with open(os.path.join(stub, "h5repack"), "w") as f:
+                f.write('#!/bin/sh\n# stand-in for: h5repack --native SRC DST\ncp "$2" "$3" && printf x >> "$3"\n')
+            os.chmod(os.path.join(stub, "h5repack"), 0o755)
+            old_path = os.environ.get("PATH", "")
+            os.environ["PATH"] = stub + os.pathsep + old_path
+            try:
+                sha0, ino0 = iofix.sha256(path), os.stat(path).st_ino
+                if case["src_state"] == "ctor":
+                    ws = Workspace(path, mode="r", repack=True)
+                else:
+                    ws = Workspace(path, mode="r")
+                    ws.repack = True
+                out["handle_before"] = iotrace.handle_state(ws)
+                d = iodrive.call_traced(ws.close, ws)
+                out.update(d)
+                out["handle_after"] = iotrace.handle_state(ws)
+                out["ctor_mode"] = ws._mode  # noqa: SLF001
+                out["sha_same"] = iofix.sha256(path) == sha0
+                out["inode_same"] = os.stat(path).st_ino == ino0
+                del ws
+            finally:
+                os.environ["PATH"] = old_path
         elif which == "read_ui_json":
             ws = iodrive.open_ws(path, "r")
             pts = iofix.locate(ws, "pts")
@@ -486,28 +517,9 @@ def op_term(op, rec):
 
 
 def _body_calls(rec):
-    """calls of the body of a fetch_active_workspace block: the calls issued by close()/open() of the helper itself (final save,
-    project attributes, tree loading) belong to the model's close/open, not to the body"""
-    out = []
-    for c in rec.get("calls", []):
-        if c[2].endswith("workspace/workspace.py") and c[0] in ("H5Writer.save_entity",) and _is_close_site(c):
-            continue
-        out.append(c)
-    return out
-
-
-_CLOSE_SITE = {}
-
-
-def _is_close_site(c):
-    """is this call the one inside Workspace.close (looked up in the extracted table, not hard-coded)"""
-    key = str(C.REPO)
-    if key not in _CLOSE_SITE:
-        from vlib import iotable
-
-        rows = iotable.extract(C.REPO)["iocalls"]
-        _CLOSE_SITE[key] = [(r["file"], r["line"], r["end"]) for r in rows if r["site"] == "SIoCall" and r["encl"] == "Workspace.close"]
-    return any(c[2] == f and a <= c[3] <= b for f, a, b in _CLOSE_SITE[key])
+    """calls of the body of a fetch_active_workspace block: the calls issued by the helper's own close() (refresh of concatenator
+    groups, final save) belong to the model's close, not to the body (flag recorded by the tracer from the call stack)"""
+    return [c for c in rec.get("calls", []) if not (len(c) > 7 and c[7])]
 
 
 def case_term(case, obs):
@@ -533,6 +545,10 @@ def case_term(case, obs):
                 % (c_handle(obs["handle0"]), cbool(bool(case.get("lock"))), cnat(obs.get("ncat", 1)), clist(ops), clist(outs), clist(hs), c_log(log), c_sites(sites)))
     # helpers
     which = case["which"]
+    if which == "repack_readonly":
+        return ("agree_run %s R false 1 [Close] [%s] [%s] %s && sites_ok IOT %s"
+                % (c_handle(obs["handle_before"]), c_err(obs["exc"], obs["calls"]), c_handle(obs["handle_after"]),
+                   c_log(obs["entries"]), c_sites(obs["calls"])))
     if which in ("path2workspace", "read_ui_json"):
         # a workspace object of its own: built with mode "r" (open + reads), closed; read_ui_json then re-opens it through
         # fetch_active_workspace(mode="r") for the promotion and closes it again
@@ -604,6 +620,16 @@ def oracle(case, obs):
         return fails
     # helpers
     which = case["which"]
+    if which == "repack_readonly":
+        if obs.get("sha_same") is False or obs.get("inode_same") is False:
+            fails.append({"key": "repack-rewrites-readonly-file",
+                          "what": f"Workspace(mode='r') with repack=True ({case['src_state']}): close() replaced the file through h5repack "
+                                  f"(bytes same: {obs.get('sha_same')}, same inode: {obs.get('inode_same')})"})
+        if obs.get("exc") is not None:
+            fails.append({"key": "helper-raised:repack_readonly", "what": f"close raised {obs['exc']}: {obs.get('msg')}"})
+        if obs.get("nfiles", 0) != 0:
+            fails.append({"key": "handle-left-open:repack_readonly", "what": "open HDF5 file after close"})
+        return fails
     if obs.get("exc") is not None:
         fails.append({"key": f"helper-raised:{which}", "what": f"{which} raised {obs['exc']}: {obs.get('msg')}"})
     if obs.get("sha_same") is False:
